@@ -38,7 +38,35 @@ VARIANTS = [
          h=("sc", "Int8"), x=("sc", "Float64"), y=("sc", "UInt32"), wr="whole", cap=1 << 14),
     dict(name="dyn2d-grow", a=("sc", "Int16"), s=("str",), arr=("arr", "Int32", (None, 2), (2, 2)), k=("sc", "Float32"), z=("sc", "Int32"),
          h=("sc", "UInt64"), x=("sc", "Int8"), y=("sc", "UInt8"), wr="elem", cap=64),          # small buffers: growth during the history
+    # "flex": the string and the dynamic array of a Leaf have a length that differs from object to object (three layouts, chosen by
+    # the object's initial tokens) in a complementary way, so that every Leaf has the same TOTAL size (nested assignment is
+    # honoured) but another split between its two dynamically sized fields; a written value takes the length the slot has
+    dict(name="split", a=("sc", "Int64"), s=("str", "flex"), arr=("arr", "Float64", (None,), "flex"), k=("sc", "Int16"), z=("sc", "Float32"),
+         h=("sc", "Int32"), x=("sc", "UInt16"), y=("sc", "Float64"), wr="whole", cap=1 << 14),
 ]
+# (string length, array length): 8 + slot(len + 1) + 16 + 8 n = 80 for each of them
+LAYOUTS = [(5, 4), (20, 2), (12, 3)]
+
+
+def is_flex(sp):
+    return sp[-1] == "flex"
+
+
+def flex_value(sp, t, n):
+    if sp[0] == "str":
+        return ("t%d_" % t).ljust(n, "x") if n >= len("t%d_" % t) else None
+    return U.arr_value(sp[1], (n,), t)
+
+
+def initial_len(sp, t):
+    lay = LAYOUTS[(int(t) // 10) % len(LAYOUTS)]
+    return lay[0] if sp[0] == "str" else lay[1]
+
+
+def cur_len(x):
+    if isinstance(x, str):
+        return len(x)
+    return int(np.prod(x._shape)) if hasattr(x, "_shape") else int(np.asarray(x).size)
 _FAM = {}
 
 
@@ -73,8 +101,11 @@ def slot_spec(vi, py):
     return VARIANTS[vi][py]
 
 
-def concrete(vi, py, t):
+def concrete(vi, py, t, n=None):
+    """the concrete value of token t in slot py; n = length for the slots of a 'flex' realisation (default: the initial layout)"""
     sp = slot_spec(vi, py)
+    if is_flex(sp):
+        return flex_value(sp, t, initial_len(sp, t) if n is None else n)
     if sp[0] == "sc":
         return U.sc_value(sp[1], t)
     if sp[0] == "str":
@@ -84,6 +115,15 @@ def concrete(vi, py, t):
 
 def same(vi, py, got, t):
     sp = slot_spec(vi, py)
+    if is_flex(sp):          # the value pattern of the token at the length the slot has; the lengths are checked as a pair (split)
+        try:
+            n = cur_len(got)
+        except Exception:
+            return False
+        if n not in [l[0 if sp[0] == "str" else 1] for l in LAYOUTS]:
+            return False
+        want = flex_value(sp, t, n)
+        return (isinstance(got, str) and got == want) if sp[0] == "str" else U.same_array(got, want)
     want = concrete(vi, py, t)
     if sp[0] == "sc":
         return U.same_scalar(got, want)
@@ -175,7 +215,10 @@ class World:
             if op == "setleaf":
                 tgt = self.resolve(cmd["e"])
                 sp = slot_spec(self.vi, cmd["f"])
-                val = concrete(self.vi, cmd["f"], cmd["v"])
+                if is_flex(sp):        # a value that fits: the length the slot has now (as a user would write `x.arr[:] = ...`)
+                    val = concrete(self.vi, cmd["f"], cmd["v"], cur_len(getattr(tgt, cmd["f"])))
+                else:
+                    val = concrete(self.vi, cmd["f"], cmd["v"])
                 if sp[0] == "arr" and VARIANTS[self.vi]["wr"] == "elem" and hasattr(tgt, "_xobject"):
                     view = getattr(tgt, cmd["f"])            # the nplike view the attribute hands out
                     for idx in np.ndindex(*val.shape):
@@ -222,6 +265,16 @@ def ident(world, o):
     return (world.bufname(x._buffer), int(x._offset), type(x).__name__)
 
 
+def _want(vi, py, t, got):
+    sp = slot_spec(vi, py)
+    if not is_flex(sp):
+        return U.short(concrete(vi, py, t))
+    try:
+        return U.short(flex_value(sp, t, cur_len(got))) + " (token pattern at the slot's length, lengths one of %s)" % (LAYOUTS,)
+    except Exception:
+        return f"<token {t}>"
+
+
 def compare(world, model):
     """-> (list of (clause, where, detail), drift notes)"""
     heap, vi = model["heap"], world.vi
@@ -252,6 +305,15 @@ def compare(world, model):
         if "mv" in mnode and hasattr(dobj, "_movable") and bool(dobj._movable) != bool(mnode["mv"]):
             drift.append(f"movable flag of {kind}@{depth}: real {dobj._movable} model {mnode['mv']}")
         kids = mnode.get("kids") or {}
+        if cls == "Leaf" and is_flex(slot_spec(vi, "s")):
+            # the two dynamically sized fields must form one of the layouts (a copy takes over the source's split as a whole)
+            for who, o in (("dressed", dobj), ("xobject", xobj)):
+                try:
+                    pair = (cur_len(getattr(o, "s")), cur_len(getattr(o, "arr")))
+                    if pair not in LAYOUTS:
+                        out.append(("value-" + who, f"leaf:split@{depth + 1}", f"{path}: lengths (s, arr) = {pair} read through the {who} path, not one of {LAYOUTS}"))
+                except Exception:
+                    pass              # reported as unreadable below
         for n, py, k, c in CT[cls]:
             fpath = f"{path}.{py}"
             if k == "leaf":
@@ -267,9 +329,9 @@ def compare(world, model):
                 if not agree(vi, py, dv, xv):
                     out.append(("mirror-value", w2, f"{fpath} reads {U.short(dv)} but _xobject path reads {U.short(xv)}"))
                 if not same(vi, py, dv, td):
-                    out.append(("value-dressed", w2, f"{fpath} reads {U.short(dv)}, model {U.short(concrete(vi, py, td))}"))
+                    out.append(("value-dressed", w2, f"{fpath} reads {U.short(dv)}, model {_want(vi, py, td, dv)}"))
                 if not same(vi, py, xv, tx):
-                    out.append(("value-xobject", w2, f"_xobject path of {fpath} reads {U.short(xv)}, model {U.short(concrete(vi, py, tx))}"))
+                    out.append(("value-xobject", w2, f"_xobject path of {fpath} reads {U.short(xv)}, model {_want(vi, py, tx, xv)}"))
             else:
                 try:
                     dch = getattr(dobj, py) if hasattr(dobj, "_xobject") else getattr(dobj, n)
